@@ -1,6 +1,6 @@
-//! C06: not implemented yet.
-use serde_json::{json, Value};
+//! C06: certificate-profile violations.  Same case format and engine as C05 (see c05.rs).
+use serde_json::Value;
 
-pub fn run(_case: &Value) -> Value {
-    json!({"r": "unimplemented"})
+pub fn run(case: &Value) -> Value {
+    crate::c05::engine(case)
 }
